@@ -9,22 +9,17 @@
 import re
 
 from ural.patterns import QUERY_VALUE_IN_URL_TEMPLATE, CONTROL_CHARS_RE
-from ural.utils import unquote, urljoin
+from ural.utils import unquote, unquote_unreserved, urljoin
 
 OBVIOUS_REDIRECTS_RE = re.compile(
     QUERY_VALUE_IN_URL_TEMPLATE
     % r"(?:redirect(?:_to)?|target|redir|next|link|orig|goto|url|[luq])",
     re.I,
 )
-LETTER_ESCAPES_RE = re.compile(r"%(?:4[1-9A-F]|5[0-9A]|6[1-9A-F]|7[0-9A])", re.I)
 REDIRECTION_DOMAINS_RE = re.compile(
     r"(?:\.ampproject\.org(?::\d+)?/[cv]/(?:s/)?|bc\.marfeelcache\.com(?::\d+)?/amp/|bc\.marfeel\.com(?::\d+)?/)",
     re.I,
 )
-
-
-def _unescape_letter(match):
-    return chr(int(match.group(0)[1:], 16))
 
 
 def infer_redirection(url, recursive=True):
@@ -42,11 +37,12 @@ def infer_redirection(url, recursive=True):
         string: Redirected url or the original url if nothing was found.
     """
 
-    # NOTE: percent-encoded letters and control characters (which every url
-    # function drops) must not hide a redirect-like key or a cache domain
-    # ("?%75rl=" and "?u\x00rl=" are "?url=")
+    # NOTE: percent-encoded unreserved characters and control characters (which
+    # every url function drops) must not hide a redirect-like key or a cache
+    # domain ("?%75rl=", "?u\x00rl=" are "?url=", "?redirect%5Fto=" is
+    # "?redirect_to=")
     original_url = url
-    url = LETTER_ESCAPES_RE.sub(_unescape_letter, url)
+    url = unquote_unreserved(url)
     url = CONTROL_CHARS_RE.sub("", url)
 
     redirection_split = REDIRECTION_DOMAINS_RE.split(url, 1)
